@@ -1692,8 +1692,9 @@ func (s *Netceptor) handleMessageData(md *MessageData) error {
 		s.listenerLock.RUnlock()
 		select {
 		case <-pc.context.Done():
-			close(pc.recvChan)
-
+			// The listener was closed while this message was waiting to be delivered. The channel
+			// is left open: other deliverers may still be blocked sending to it, and readers are
+			// woken up by the context.
 			return nil
 		case pc.recvChan <- md:
 		}
